@@ -81,6 +81,13 @@ pub fn gen_image_world(rng: &mut Rng, plan: &mut Plan, force: Option<(i64, bool,
         plan.set_file("rmap", join_ids(&gen_perm(&mut rng.fork(), info.num_right)));
     }
     plan.set_param("user_first", rng.below(2) as i64);
+    // a dictionary without any unknown-word entry (the unknown-word table is the last section of
+    // the image); such a dictionary is only read and observed through its connection costs here
+    if force.is_none() && rng.chance(1, 12) {
+        plan.set_file("unk.def", "");
+        plan.set_param("no_unk", 1);
+        return vec![String::new()];
+    }
     gen_probes(&mut rng.fork(), &info.surfaces, 4)
 }
 
@@ -162,8 +169,13 @@ impl Scenario for ImageScenario {
                     let kind = *rng.pick(&[0i64, 1, 3]);
                     Op::new("ReaderError").n(&[frac(rng), kind]).fault("src", f)
                 }
-                7 => Op::new("ForeignMagic").n(&[rng.range(0, 20), rng.range(1, 255)]),
-                8 => Op::new("MagicPrefix").n(&[rng.range(0, 21), rng.range(0, 2)]),
+                // foreign headers, delivered in one piece or in small chunks / with EINTR
+                7 => Op::new("ForeignMagic")
+                    .n(&[rng.range(0, 20), rng.range(1, 255)])
+                    .fault("src", gen_benign(rng, 64)),
+                8 => Op::new("MagicPrefix")
+                    .n(&[rng.range(0, 21), rng.range(0, 2)])
+                    .fault("src", gen_benign(rng, 64)),
                 _ => Op::new("ReadFull")
                     .fault("src", gen_benign(rng, 4096))
                     .fault("sink", gen_benign(rng, 4096)),
@@ -257,7 +269,7 @@ impl Scenario for ImageScenario {
                     let mut img = image.clone();
                     let b = img[i].wrapping_add(op.num(1).clamp(1, 255) as u8);
                     img[i] = b;
-                    let r = read_image(&img, &none, ctx);
+                    let r = read_image(&img, &op.get_fault("src"), ctx);
                     ctx.observations += 1;
                     ctx.count("op.foreign_magic");
                     expect_rejected("C09.magic", &format!("magic byte {i} -> {b:#x}"), r, ctx)?;
@@ -283,7 +295,7 @@ impl Scenario for ImageScenario {
                             image[magic().len()..].to_vec()
                         }
                     };
-                    let r = read_image(&img, &none, ctx);
+                    let r = read_image(&img, &op.get_fault("src"), ctx);
                     ctx.observations += 1;
                     ctx.count("op.magic_prefix");
                     expect_rejected("C09.magic", &format!("foreign header kind {} n={n}", op.num(1)), r, ctx)?;
@@ -390,6 +402,7 @@ impl Scenario for ImageScenario {
                 let mut plan = Plan::new("C09", seed, u64::MAX - (w * 100 + ci) as u64);
                 let _ = gen_image_world(&mut rng, &mut plan, Some((conn, u, m)));
                 plan.set_file("probes", "");
+                crate::hashseam::begin_plan(&plan);
                 let mut ctx = Ctx::new(false);
                 let dict = match reference_dict(&plan, &mut ctx) {
                     Ok(d) => d,
@@ -466,9 +479,18 @@ impl Scenario for ImageScenario {
                     let mut img = image.clone();
                     img[i] = img[i].wrapping_add(delta);
                     let ok = catch(|| Dictionary::read(img.as_slice()).is_ok());
-                    rep.extra_evaluations += 1;
-                    rep.extra_distinct += 1;
-                    if !matches!(ok, Ok(false)) {
+                    // the same foreign header delivered in 3-byte pieces (only the header part of
+                    // the image is needed to be rejected)
+                    let chunked = Fault {
+                        chunks: vec![3],
+                        ..Default::default()
+                    };
+                    let head = &img[..(magic().len() + 64).min(img.len())];
+                    let mut scratch = Ctx::new(false);
+                    let ok2 = read_image(head, &chunked, &mut scratch).map(|r| r.is_ok());
+                    rep.extra_evaluations += 2;
+                    rep.extra_distinct += 2;
+                    if !matches!(ok, Ok(false)) || !matches!(ok2, Ok(false)) {
                         let mut p = plan.clone();
                         p.ops = vec![Op::new("ForeignMagic").n(&[i as i64, i64::from(delta)])];
                         rep.extra_failure = Some((
